@@ -124,7 +124,23 @@ def gen_case(rng, i, nprocs, EC):
         elif k < 0.45 and recnofill:
             p.fill_var_rec(rng.choice(recnofill), 0, expect=EC["ENOTFILL"])
         elif k < 0.8:
+            recs = [vid for vid, v in enumerate(p.fm.vars) if v.isrec]
+            if recs and nprocs > 1 and rng.random() < 0.35:
+                # records appended in independent mode by ONE rank, then define mode re-entered straight from independent
+                # mode: the variables added below must be filled over ALL records that exist, on every rank's share
+                p.begin_indep()
+                vid = rng.choice(recs)
+                v = p.fm.vars[vid]
+                shape = p.shape_now(v)
+                r = rng.randrange(1, nprocs)
+                n_new = rng.randint(1, 3)
+                st = [p.fm.numrecs] + [0] * (v.ndims - 1)
+                ct = [n_new] + list(shape[1:])
+                if min(ct) > 0:
+                    p.one_access("put", r, vid, st, ct, [1] * v.ndims, False, form="vara")
+                p.feat.add(("redef-from-indep",))
             p.redef()
+            p.indep = False
             define_some(p, rng, b"r%d" % step, EC)
             if rng.random() < 0.3:
                 p.emit("*", "put_att", Expect(0), f=p.f, v=-1, name=hx(b"g%d" % step), mt="text", n=700, data="rep:62:700")
